@@ -313,3 +313,9 @@ func (s *sandboxNS) written() map[string]string {
 }
 
 func (s *sandboxNS) close() { s.db.Close() }
+
+// reset empties the overlay and the cache (the backing store is never written).
+func (s *sandboxNS) reset() {
+	s.overlay.Reset()
+	s.cache.Reset()
+}
